@@ -435,8 +435,10 @@ def _targets(t, out):
             _targets(e.value if isinstance(e, ast.Starred) else e, out)
 
 
-def node_defs(cfg, n):
-    """local names (re)bound by CFG node n -> 'strong' (plain rebinding) or 'weak' (augmented / loop / partial)"""
+def node_defs(cfg, n, ssa=False):
+    """local names (re)bound by CFG node n -> 'strong' (plain rebinding) or 'weak' (augmented / loop / partial).
+    ssa=True: `x op= e` and element stores `x[i] = e` / `x[i] op= e` count as full redefinitions of x (its new value is
+    a function of the old one), so that a straight-line sequence of updates has one reaching definition at each use"""
     st = cfg.stmt[n]
     kind = cfg.kind[n]
     out = {}
@@ -455,12 +457,17 @@ def node_defs(cfg, n):
             for x in names:
                 out[x] = "strong"
         elif isinstance(st, ast.AugAssign) and isinstance(st.target, ast.Name):
-            out[st.target.id] = "weak"
+            out[st.target.id] = "strong" if ssa else "weak"
         elif isinstance(st, (ast.Import, ast.ImportFrom)):
             for a in st.names:
                 out[(a.asname or a.name).split(".")[0]] = "strong"
         elif isinstance(st, (ast.FunctionDef, ast.ClassDef)):
             out[st.name] = "strong"
+        if ssa:
+            tg = st.targets if isinstance(st, ast.Assign) else ([st.target] if isinstance(st, (ast.AugAssign, ast.AnnAssign)) else [])
+            for t in tg:
+                if isinstance(t, ast.Subscript) and isinstance(t.value, ast.Name) and t.value.id not in out:
+                    out[t.value.id] = "strong"
         for sub in ast.walk(st):
             if isinstance(sub, ast.NamedExpr) and isinstance(sub.target, ast.Name):
                 out[sub.target.id] = "weak"
@@ -481,13 +488,13 @@ def node_defs(cfg, n):
     return out
 
 
-def reaching_defs(cfg):
+def reaching_defs(cfg, ssa=False):
     """classic forward may-analysis: for every node the set of (name, defining node) pairs that may reach its entry;
     the pseudo node cfg.entry defines every parameter"""
     gen = {}
     kill_names = {}
     for n in cfg.g.nodes:
-        d = node_defs(cfg, n) if n not in (cfg.entry, cfg.exit, cfg.raise_exit) else {}
+        d = node_defs(cfg, n, ssa) if n not in (cfg.entry, cfg.exit, cfg.raise_exit) else {}
         gen[n] = {(x, n) for x in d}
         kill_names[n] = {x for x, k in d.items() if k == "strong"}
     a = cfg.func.args
